@@ -893,6 +893,10 @@ func main() {
 				"see all <= 2-term expressions and every %dth 3-term expression (seed-dependent offset) — four APIs on all 6.4e9 expressions would take > 1 h", sampleStride))
 		}
 		for k, v := range c.shapeSeen {
+			if strings.HasPrefix(k, "strings/") {
+				t.Count(k, v) // string layer: reference verdict x pdfcpu verdict
+				continue
+			}
 			t.Count("term_occurrences/"+k, v)
 		}
 		for k, v := range c.vioClass {
